@@ -14,6 +14,13 @@ func ledgerMonitors() []Monitor {
 		{"C21", "multisig", monC21},
 		{"C07", "cache", monC07},
 		{"C48", "governance", monC48},
+		{"C12", "challenge-pool", monC12},
+		{"C13", "capacity", monC13},
+		{"C14", "close", monC14},
+		{"C15", "read", monC15},
+		{"C24", "free", monC24},
+		{"C22", "fees", monC22},
+		{"C23", "kill", monC23},
 	}
 }
 
